@@ -178,6 +178,28 @@ theorem mem_rrunIgn (evs : List (Output α)) (d : Datum α) (h : d ∈ rrunIgn e
       · simp [ih h]
     | .ok none => simp only [rrunIgn_snoc_absent] at h; simp [ih h]
     | .error x => simp at h
+/-- an event that is not "absent" -/
+def notAbsent : Output α → Bool
+  | .ok none => false
+  | _ => true
+
+/-- "ignoring absent events" is literally that: the last run of the history with the absent events deleted -/
+theorem lastRunIgnoringAbsent_eq_filter (evs : List (Output α)) :
+    lastRunIgnoringAbsent evs = lastRun (evs.filter notAbsent) := by
+  induction evs using snoc_induction with
+  | nil => rfl
+  | snoc l e ih =>
+    rw [lastRunIgnoringAbsent_snoc, List.filter_append]
+    match e with
+    | .ok (some d) =>
+      have : List.filter notAbsent [(.ok (some d) : Output α)] = [.ok (some d)] := rfl
+      rw [this, lastRun_snoc, ih]
+    | .ok none =>
+      have : List.filter notAbsent [(.ok none : Output α)] = [] := rfl
+      rw [this, List.append_nil, ih]
+    | .error x =>
+      have : List.filter notAbsent [(.error x : Output α)] = [.error x] := rfl
+      rw [this, lastRun_snoc]
 end Run
 
 /-! ## B, C. integral and derivative streams -/
@@ -2039,6 +2061,45 @@ theorem p2s_get_shift (chk : Bool) (c : Int) (s : Option (P2sU0 F)) :
     simp only [P2s.get, shiftP2s, Option.map]
     cases State.new chk pos vel acc <;> rfl
 
+theorem state_new_value (chk : Bool) (p v a : Quantity F) (st : State F) (h : State.new chk p v a = .ok st) :
+    st = ⟨p.value, v.value, a.value⟩ := by
+  simp only [State.new] at h
+  repeat' split at h
+  all_goals (cases h <;> rfl)
+/-- whenever `State::new` does not panic the converter output is just the three numbers and the time -/
+theorem stateOut_value (chk : Bool) (sp : StateSpec F) (o : Output (State F))
+    (h : stateOut chk (some sp) = .ok o) :
+    o = .ok (some ⟨sp.time, ⟨sp.pos.value, sp.vel.value, sp.acc.value⟩⟩) := by
+  simp only [stateOut] at h
+  cases hn : State.new chk sp.pos sp.vel sp.acc with
+  | error e => rw [hn] at h; cases h
+  | ok st =>
+    rw [hn] at h; cases h
+    rw [state_new_value chk _ _ _ st hn]
+/-- with checking off it never panics -/
+theorem stateOut_nochk (sp : StateSpec F) :
+    stateOut false (some sp) = .ok (.ok (some ⟨sp.time, ⟨sp.pos.value, sp.vel.value, sp.acc.value⟩⟩)) := rfl
+/-- the number computed by `qHalfTimes` (any checking mode): `(a + b) / 2 * dt` -/
+theorem qHalfTimes_value (chk : Bool) (a b dt q : Quantity F) (h : qHalfTimes chk a b dt = .ok q) :
+    q.value = (a.value + b.value) / c2 * dt.value := by
+  simp only [qHalfTimes] at h
+  cases hs : Quantity.add chk a b with
+  | error e => rw [hs] at h; cases h
+  | ok sm =>
+    rw [hs] at h; cases h
+    simp only [Quantity.mul, Quantity.div, Quantity.dimensionless, qadd_value chk _ _ _ hs]
+
+/-- right after an error event the converters report absent (they do not cache the error) -/
+theorem a2s_get_after_error (chk : Bool) (l : List (Output (Quantity F))) (x : Err) (s : Option (A2sU0 F))
+    (h : runE (A2s.step chk) A2s.init (l ++ [.error x]) = .ok s) : A2s.get chk s = .ok (.ok none) :=
+  a2s_absent_until chk _ s h (by simp [lastRunIgnoringAbsent])
+theorem v2s_get_after_error (chk : Bool) (l : List (Output (Quantity F))) (x : Err) (s : Option (V2sU0 F))
+    (h : runE (V2s.step chk) V2s.init (l ++ [.error x]) = .ok s) : V2s.get chk s = .ok (.ok none) :=
+  v2s_absent_until chk _ s h (by simp [lastRunIgnoringAbsent])
+theorem p2s_get_after_error (chk : Bool) (l : List (Output (Quantity F))) (x : Err) (s : Option (P2sU0 F))
+    (h : runE (P2s.step chk) P2s.init (l ++ [.error x]) = .ok s) : P2s.get chk s = .ok (.ok none) :=
+  p2s_absent_until chk _ s h (by simp [lastRunIgnoringAbsent])
+
 end S
 
 /-! ## tier R sanity corollaries: on a linear signal the formulas are exact -/
@@ -2172,5 +2233,116 @@ theorem backdiff_linear_exact (chk : Bool) (m c : F) (pre : List (Datum (Quantit
     field_simp
     ring
 end R
+
+/-! ## non-vacuity: concrete histories (integer payloads; times in whole seconds so that `/ 10⁹` is exact) -/
+section Examples
+/-- an integer "scalar" only used to evaluate the examples below -/
+local instance : FloatLike Int := ⟨id, id, fun _ _ => 1, fun x => (x.natAbs : Int)⟩
+
+/-- sample in mm at `t` seconds -/
+private def smp (t v : Int) (u : DUnit) : Output (Quantity Int) := .ok (some ⟨t * 1000000000, ⟨v, u⟩⟩)
+private def MM : DUnit := ⟨1, 0⟩
+private def MMS : DUnit := ⟨1, -1⟩
+private def MMS2 : DUnit := ⟨1, -2⟩
+private def histI : List (Output (Quantity Int)) :=
+  [smp 0 7 MM, .error (.other 3), smp 1 1 MM, .ok none, smp 2 1 MM, smp 3 3 MM, smp 5 5 MM]
+
+/-- `lastRun` / `lastRunIgnoringAbsent` on a history with an error and an absent event -/
+example : lastRun histI = [⟨2000000000, ⟨1, MM⟩⟩, ⟨3000000000, ⟨3, MM⟩⟩, ⟨5000000000, ⟨5, MM⟩⟩] := by rfl
+example : lastRunIgnoringAbsent histI =
+    [⟨1000000000, ⟨1, MM⟩⟩, ⟨2000000000, ⟨1, MM⟩⟩, ⟨3000000000, ⟨3, MM⟩⟩, ⟨5000000000, ⟨5, MM⟩⟩] := by rfl
+
+/-- integral (checking on): the run after the reset is (2s,1) (3s,3) (5s,5): 1·(1+3)/2 + 2·(3+5)/2 = 10 mm·s at 5 s;
+this is the hypothesis `runE … = .ok s` of `integral_eq_trapsum`, `integral_prev`, `integral_output_unit` -/
+example : ∃ s, runE (Integral.step true) Integral.init histI = .ok s ∧
+    Integral.get s = .ok (some ⟨5000000000, ⟨10, ⟨1, 1⟩⟩⟩) := ⟨_, rfl, rfl⟩
+example : trapSpec true (lastRun histI) = .ok (some ⟨5000000000, ⟨10, ⟨1, 1⟩⟩⟩) := by rfl
+/-- a rectangle rule would give 1·3 + 2·5 = 13 or 1·1 + 2·3 = 7 -/
+example : AllUnit MM histI := by
+  intro d hd
+  simp [histI, smp] at hd
+  rcases hd with rfl | rfl | rfl | rfl | rfl <;> rfl
+/-- derivative: (5 − 3) / 2 s = 1 mm/s -/
+example : ∃ s, runE (Derivative.step true) Derivative.init histI = .ok s ∧
+    Derivative.get s = .ok (some ⟨5000000000, ⟨1, ⟨1, -1⟩⟩⟩) := ⟨_, rfl, rfl⟩
+example : backdiffSpec true (lastRun histI) = .ok (some ⟨5000000000, ⟨1, ⟨1, -1⟩⟩⟩) := by rfl
+/-- last event an error / absent -/
+example : ∃ s, runE (Integral.step true) Integral.init [smp 0 1 MM, smp 1 1 MM, .error .fromNone] = .ok s ∧
+    Integral.get s = .error .fromNone := ⟨_, rfl, rfl⟩
+example : ∃ s, runE (Derivative.step true) Derivative.init [smp 0 1 MM, smp 1 1 MM, .ok none] = .ok s ∧
+    Derivative.get s = .ok none := ⟨_, rfl, rfl⟩
+/-- a unit mismatch between consecutive samples panics (hypotheses of `*_unit_mismatch_panics`, right-hand side of
+`integral_panics_iff`) -/
+example : runE (Integral.step true) Integral.init [smp 0 1 MM, smp 1 1 MMS] = .error .dim := by rfl
+example : runE (Derivative.step true) Derivative.init [smp 0 1 MM, smp 1 1 MMS] = .error .dim := by rfl
+example : trapSpec true (lastRun [smp 0 1 MM, smp 1 1 MMS]) = .error .dim := by rfl
+/-- … but not with checking off -/
+example : ∃ s, runE (Integral.step false) Integral.init [smp 0 1 MM, smp 1 1 MMS] = .ok s := ⟨_, rfl⟩
+
+/-- acceleration converter: constant 2 mm/s² at 0,1,2,3 s (an absent event in between is ignored):
+vel = 2, 4, 6; pos = 3, 8 -/
+private def histA : List (Output (Quantity Int)) := [smp 0 2 MMS2, .ok none, smp 1 2 MMS2, smp 2 2 MMS2, smp 3 2 MMS2]
+example : ∃ s, runE (A2s.step true) A2s.init histA = .ok s ∧
+    A2s.get true s = .ok (.ok (some ⟨3000000000, ⟨8, 6, 2⟩⟩)) := ⟨_, rfl, rfl⟩
+example : ∃ sp, a2sSpec true (lastRunIgnoringAbsent histA) = .ok (some sp) ∧
+    sp.pos = ⟨8, ⟨1, 0⟩⟩ ∧ sp.vel = ⟨6, ⟨1, -1⟩⟩ ∧ sp.acc = ⟨2, ⟨1, -2⟩⟩ ∧ sp.time = 3000000000 :=
+  ⟨_, rfl, rfl, rfl, rfl, rfl⟩
+example : ∀ e ∈ histA, GoodUnit MMS2 e := by
+  intro e he d hd
+  subst hd
+  simp [histA, smp] at he
+  rcases he with rfl | rfl | rfl | rfl <;> rfl
+/-- fewer than three samples since the last error: absent (hypothesis of `a2s_absent_until`) -/
+example : ∃ s, runE (A2s.step true) A2s.init (histA ++ [.error .fromNone, smp 4 2 MMS2, smp 5 2 MMS2]) = .ok s ∧
+    (lastRunIgnoringAbsent (histA ++ [.error .fromNone, smp 4 2 MMS2, smp 5 2 MMS2])).length < 3 ∧
+    A2s.get true s = .ok (.ok none) := ⟨_, rfl, by decide, rfl⟩
+/-- wrong unit -/
+example : A2s.step true (none : Option (A2sU0 Int)) (smp 0 2 MM) = .error .dim := by rfl
+example : V2s.step true (none : Option (V2sU0 Int)) (smp 0 2 MM) = .error .dim := by rfl
+example : P2s.step true (none : Option (P2sU0 Int)) (smp 0 2 MMS) = .error .dim := by rfl
+
+/-- velocity converter: v = 0, 2, 6 mm/s at 0, 1, 3 s: pos = 1, 1 + 8 = 9; acc = (6 − 2)/2 = 2 -/
+private def histV : List (Output (Quantity Int)) := [smp 0 0 MMS, smp 1 2 MMS, .ok none, smp 3 6 MMS]
+example : ∃ s, runE (V2s.step true) V2s.init histV = .ok s ∧
+    V2s.get true s = .ok (.ok (some ⟨3000000000, ⟨9, 6, 2⟩⟩)) := ⟨_, rfl, rfl⟩
+example : ∃ sp, v2sSpec true (lastRunIgnoringAbsent histV) = .ok (some sp) ∧
+    sp.pos = ⟨9, ⟨1, 0⟩⟩ ∧ sp.vel = ⟨6, ⟨1, -1⟩⟩ ∧ sp.acc = ⟨2, ⟨1, -2⟩⟩ ∧ sp.time = 3000000000 :=
+  ⟨_, rfl, rfl, rfl, rfl, rfl⟩
+example : ∃ s, runE (V2s.step true) V2s.init [smp 0 0 MMS] = .ok s ∧
+    (lastRunIgnoringAbsent [smp 0 0 MMS]).length < 2 ∧ V2s.get true s = .ok (.ok none) := ⟨_, rfl, by decide, rfl⟩
+
+/-- position converter: p = 0, 1, 4, 10 mm at 0, 1, 2, 4 s: vel = 1, 3, 3; acc = (3 − 3)/2 = 0 -/
+private def histP : List (Output (Quantity Int)) := [smp 0 0 MM, smp 1 1 MM, smp 2 4 MM, smp 4 10 MM]
+example : ∃ s, runE (P2s.step true) P2s.init histP = .ok s ∧
+    P2s.get true s = .ok (.ok (some ⟨4000000000, ⟨10, 3, 0⟩⟩)) := ⟨_, rfl, rfl⟩
+example : ∃ s, runE (P2s.step true) P2s.init (histP.take 3) = .ok s ∧
+    P2s.get true s = .ok (.ok (some ⟨2000000000, ⟨4, 3, 2⟩⟩)) := ⟨_, rfl, rfl⟩
+example : ∃ sp, p2sSpec true (lastRunIgnoringAbsent histP) = .ok (some sp) ∧
+    sp.pos = ⟨10, ⟨1, 0⟩⟩ ∧ sp.vel = ⟨3, ⟨1, -1⟩⟩ ∧ sp.acc = ⟨0, ⟨1, -2⟩⟩ ∧ sp.time = 4000000000 :=
+  ⟨_, rfl, rfl, rfl, rfl, rfl⟩
+example : ∃ s, runE (P2s.step true) P2s.init (histP.take 2) = .ok s ∧
+    (lastRunIgnoringAbsent (histP.take 2)).length < 3 ∧ P2s.get true s = .ok (.ok none) := ⟨_, rfl, by decide, rfl⟩
+
+/-- shift invariance instance: the same history one hour later -/
+example : ∃ s, runE (Integral.step true) Integral.init (shiftHist 3600000000000 histI) = .ok s ∧
+    Integral.get s = .ok (some ⟨3605000000000, ⟨10, ⟨1, 1⟩⟩⟩) := ⟨_, rfl, rfl⟩
+
+/-- tier R, over ℚ: samples of v(t) = 2t + 1 at 0 s, 1 s, 3 s.  Hypotheses of `trapsum_linear_exact` and
+`backdiff_linear_exact` hold and the exact integral is 3·(1 + 7)/2 = 12, the slope 2. -/
+private def runQ : List (Datum (Quantity ℚ)) :=
+  [⟨0, ⟨1, ⟨1, 0⟩⟩⟩, ⟨1000000000, ⟨3, ⟨1, 0⟩⟩⟩, ⟨3000000000, ⟨7, ⟨1, 0⟩⟩⟩]
+example : ∀ d ∈ runQ, d.value.value = 2 * ((d.time : ℚ) / 1000000000) + 1 := by
+  intro d hd
+  simp only [runQ, List.mem_cons, List.not_mem_nil, or_false] at hd
+  rcases hd with rfl | rfl | rfl <;> norm_num
+example : ∃ r, trapSpec false runQ = .ok (some r) ∧ r.value.value = 12 := by
+  obtain ⟨r, hr⟩ := trapSpec_nochk_some runQ (by decide)
+  refine ⟨r, hr, ?_⟩
+  have := (trapsum_linear_exact false 2 1 runQ (by
+    intro d hd
+    simp only [runQ, List.mem_cons, List.not_mem_nil, or_false] at hd
+    rcases hd with rfl | rfl | rfl <;> norm_num) _ _ r rfl rfl hr).1
+  rw [this]; norm_num
+end Examples
 
 end Rrtk.Thm.C10
